@@ -1016,10 +1016,29 @@ func (x *Exec) localNames(st *St, fr *Frame, extra map[string]*Val) map[string]*
 	for k, v := range x.entryNames {
 		names[k] = v
 	}
+	// the variables of the function the frame belongs to (for a closure: of the enclosing declaration, which holds the
+	// captured variables too); variables of inlined callees are not visible to this function's clauses. Where a name is
+	// declared twice (shadowing), the later declaration wins; the order is deterministic.
+	var lo, hi token.Pos
+	if fr != nil && fr.fi != nil && fr.fi.Decl != nil {
+		lo, hi = fr.fi.Decl.Pos(), fr.fi.Decl.End()
+	}
+	type cand struct {
+		vo *types.Var
+		v  *Val
+	}
+	var cs []cand
 	for o, v := range st.vars {
 		if vo, ok := o.(*types.Var); ok && v != nil {
-			names[vo.Name()] = v
+			if lo.IsValid() && vo.Pos().IsValid() && (vo.Pos() < lo || vo.Pos() >= hi) {
+				continue
+			}
+			cs = append(cs, cand{vo, v})
 		}
+	}
+	sort.Slice(cs, func(i, j int) bool { return cs[i].vo.Pos() < cs[j].vo.Pos() })
+	for _, c := range cs {
+		names[c.vo.Name()] = c.v
 	}
 	for k, v := range extra {
 		names[k] = v
